@@ -11,7 +11,9 @@ from vlib.scopelog import Structure
 
 @st.composite
 def cases(draw, tier):
-    side = draw(st.integers(0, 19)) == 0           # side stream: shapes of open findings
+    # first() over activities that can fail used to be a 5 % side stream (finding D17, open at the time); since the
+    # fix it is part of half of the whole-program cases
+    side = draw(st.booleans())
     which = draw(st.integers(0, 3))
     if which == 0:
         c = draw(scope_programs(tier, fail=4, volatile=3, until=4, late_spawn=3, priv=1, finally_spawn=2,
